@@ -236,16 +236,25 @@ def jarr(a):
             for row in np.asarray(a).tolist()]
 
 
+def make_localbkg(spec):
+    """None | [inner, outer] (default clipped median) | {'inner', 'outer', 'est': median-clip|median|mean}"""
+    if not spec:
+        return None
+    from photutils.background import LocalBackground, MeanBackground, MedianBackground
+    if isinstance(spec, (list, tuple)):
+        return LocalBackground(*spec)
+    est = {'median-clip': lambda: MedianBackground(), 'median': lambda: MedianBackground(sigma_clip=None),
+           'mean': lambda: MeanBackground(sigma_clip=None)}[spec.get('est', 'median-clip')]()
+    return LocalBackground(spec['inner'], spec['outer'], est)
+
+
 def build_phot(case, fitter):
     from photutils.psf import PSFPhotometry, SourceGrouper
     psf = make_psf(case['psf'])
     grouper = None
     if case['grouping'].get('t') is not None:     # kind 'sep', or kind 'user' with a grouper ALSO configured
         grouper = SourceGrouper(case['grouping']['t'])
-    lb = None
-    if case.get('localbkg'):
-        from photutils.background import LocalBackground
-        lb = LocalBackground(*case['localbkg'])
+    lb = make_localbkg(case.get('localbkg'))
     xyb = case['xy_bounds']
     if isinstance(xyb, list):
         xyb = tuple(xyb)
@@ -412,12 +421,14 @@ def to_coq(case, res):
         flux = [0.0] * n
     if case['local_bkg'] is not None:
         bkg = case['local_bkg']
-    elif tbl is not None and case.get('localbkg'):
-        order = list(range(n)) if case['ids'] is None else list(np.argsort(case['ids']))
-        bl = colvals(tbl, 'local_bkg')
-        bkg = [0.0] * n
-        for pos, irow in enumerate(order):
-            bkg[irow] = bl[pos]
+    elif case.get('localbkg'):
+        # the estimator applied by the harness itself to the unmasked, finite annulus pixels (also needed when
+        # the call raised after some groups were fitted: the cutouts in the call log are data - local_bkg)
+        eff = ~fin if mask is None else (~fin | mask)
+        with warnings.catch_warnings():
+            warnings.simplefilter('ignore')
+            bkg = [float(v) for v in np.atleast_1d(make_localbkg(case['localbkg'])(
+                data, np.array(case['x'], float), np.array(case['y'], float), mask=eff))]
     else:
         bkg = [0.0] * n
     ins = [(zs(case['x'][i], sc), zs(case['y'][i], sc), zs(flux[i], sc), zs(bkg[i], sc)) for i in range(n)]
@@ -576,7 +587,24 @@ def oracle(case, res):
     if xyb is not None and not isinstance(xyb, (list, tuple)):
         xyb = [xyb, xyb]
     sizes = {gid: gids.count(gid) for gid in set(gids)}
+    want_bkg = None
+    if case.get('localbkg') and case['local_bkg'] is None:
+        # masked (and non-finite) pixels are excluded from ALL calculations, the background annulus included:
+        # the harness applies the same estimator itself, with the effective mask
+        with warnings.catch_warnings():
+            warnings.simplefilter('ignore')
+            want_bkg = np.atleast_1d(make_localbkg(case['localbkg'])(data, np.array(x), np.array(y), mask=eff))
+    elif case['local_bkg'] is not None:
+        want_bkg = [float(v) for v in case['local_bkg']]
     for r, i in enumerate(rowsrc):
+        if want_bkg is not None:
+            gb = tbl['local_bkg'][r]
+            gb = float(getattr(gb, 'value', gb))
+            wb = float(want_bkg[i])
+            if not (gb == wb or (math.isnan(gb) and math.isnan(wb))):
+                out.append(('_prepare_init_params:local_bkg',
+                            f'row {r} (input row {i}, id {ids[i]}): local_bkg {gb} != {wb} = the estimator applied '
+                            'to the unmasked pixels of the annulus (or the supplied column)'))
         def bad_(sig, msg):
             out.append((sig, f'row {r} (input row {i}, id {ids[i]}): {msg}'))
         if int(tbl['id'][r]) != ids[i]:
@@ -807,6 +835,11 @@ def gen_script_case(rng):
     local_bkg = None
     if rng.random() < 0.35:
         local_bkg = [q8(rng, -2, 6) for _ in range(n)]
+    localbkg = None
+    if local_bkg is None and rng.random() < 0.2:
+        r1 = rng.choice([1.5, 2.0, 2.5, 3.0])
+        localbkg = {'inner': r1, 'outer': r1 + rng.choice([1.5, 2.0, 3.0]),
+                    'est': rng.choice(['median-clip', 'median-clip', 'median', 'median', 'mean'])}
     xyb = rng.choice([None, None, 1.0, 0.5, [1.5, None], [None, 0.75], [2.0, 1.0], [None, None]])
     psf = rng.choice([{'kind': 'cgprf', 'fwhm': 2.0},
                       {'kind': 'cgprf', 'fwhm': 2.0},
@@ -830,10 +863,10 @@ def gen_script_case(rng):
             'mask': None if mask is None else mask.astype(int).tolist(), 'error': jarr(error),
             'x': xs, 'y': ys, 'flux': flux, 'ids': ids, 'local_bkg': local_bkg, 'grouping': grouping,
             'xy_bounds': xyb, 'psf': psf, 'infokind': infokind, 'fseed': rng.randrange(1 << 30),
-            'xcol': cols[0], 'ycol': cols[1], 'fcol': cols[2], 'klass': klass}
+            'xcol': cols[0], 'ycol': cols[1], 'fcol': cols[2], 'klass': klass, 'localbkg': localbkg}
 
 
-def gen_real_case(rng, big=False):
+def gen_real_case(rng, big=False, plain=False):
     """Noise-free scene rendered from the PSF model; groups far apart, members of a
     group overlapping; initial guesses within a pixel of the truth."""
     from photutils.datasets import make_model_image
@@ -851,6 +884,11 @@ def gen_real_case(rng, big=False):
     f = rng.choice([5, 7, 9])
     cell = 2 * half + 1 + f + 8    # spacing of group centres: no cross-talk between groups
     gy_, gx_ = rng.choice([(1, 1), (1, 2), (2, 2), (2, 1)])
+    # background mode: none | local_bkg column | LocalBackground estimator on a pedestal
+    bk = rng.random()
+    est = rng.choice(['median-clip', 'median-clip', 'median', 'mean', 'mean'])
+    if 0.2 <= bk < 0.6 and est == 'mean':
+        gy_, gx_ = 1, 1            # a plain mean has no robustness: the annulus must not contain other groups
     ny, nx = gy_ * cell, gx_ * cell
     xs, ys, fl, grp_truth = [], [], [], []
     for a in range(gy_):
@@ -878,16 +916,46 @@ def gen_real_case(rng, big=False):
     bkg_level = 0.0
     localbkg = None
     local_bkg_col = None
-    bk = rng.random()
     if bk < 0.2:
         bkg_level = float(rng.randint(1, 8))
         local_bkg_col = [bkg_level] * n
-    elif bk < 0.35:
+    elif bk < 0.6:
         bkg_level = float(rng.randint(1, 8))
-        localbkg = [14.0, 20.0]
+        localbkg = {'inner': 14.0, 'outer': 20.0, 'est': est}
     data = data + bkg_level
     xi = [round((v + rng.uniform(-0.45, 0.45)) * 8) / 8 for v in xs]
     yi = [round((v + rng.uniform(-0.45, 0.45)) * 8) / 8 for v in ys]
+    # a dead part of the detector holding FINITE junk, flagged in the mask: it covers a large part of the
+    # background annulus of source `it` (and of others) but no fit window and no flux-guess aperture
+    junk_mask = None
+    if localbkg is not None and not plain and rng.random() < 0.7:
+        it = rng.randrange(n)
+        d = max(f // 2 + 1, 5)
+        yy_, xx_ = np.mgrid[:ny, :nx]
+        sx, sy = rng.choice([-1, 1]), rng.choice([-1, 1])
+        jm = (sx * (xx_ - xi[it]) >= d) | (sy * (yy_ - yi[it]) >= d)
+        for u, v in zip(xi, yi):
+            jm &= ~((np.abs(xx_ - u) < d + 1) & (np.abs(yy_ - v) < d + 1))
+        # every source keeps enough unmasked annulus pixels
+        enough = all(np.count_nonzero((np.hypot(xx_ - u, yy_ - v) >= 14.5) & (np.hypot(xx_ - u, yy_ - v) <= 19.5) & ~jm) >= 25
+                     for u, v in zip(xi, yi))
+        if enough and jm.any():
+            junk_mask = jm
+            clean = data
+            data = np.where(jm, rng.choice([50.0, -50.0, 1000.0, -300.0]), data)
+    if localbkg is not None:
+        # validity of the scene (not an oracle): the pedestal must be recoverable by the chosen estimator from
+        # the unmasked annulus pixels; otherwise (annulus left with mostly neighbouring sources) drop the junk,
+        # then fall back to the clipped median
+        def pedestal_ok(d_, m_, spec_):
+            with warnings.catch_warnings():
+                warnings.simplefilter('ignore')
+                b_ = np.atleast_1d(make_localbkg(spec_)(d_, np.array(xi), np.array(yi), mask=m_))
+            return bool(np.all(np.abs(b_ - bkg_level) <= 2e-4))
+        if junk_mask is not None and not pedestal_ok(data, junk_mask, localbkg):
+            data, junk_mask = clean, None
+        if junk_mask is None and not pedestal_ok(data, None, localbkg):
+            localbkg = {'inner': 14.0, 'outer': 20.0, 'est': 'median-clip'}
     if 'fix' in spec:              # a fixed parameter must start at the truth (dyadic) to be recoverable
         pass
     gk = rng.choice(['user', 'sep', 'sep', 'user+grouper'])
@@ -902,8 +970,10 @@ def gen_real_case(rng, big=False):
     else:
         grouping = {'kind': 'sep', 't': 11.0}   # members <= 8.5 apart (chain), groups >= cell - 6 apart
     mask = None
+    if junk_mask is not None:
+        mask = junk_mask.copy()
     if rng.random() < 0.3:
-        mask = np.zeros((ny, nx), bool)
+        mask = np.zeros((ny, nx), bool) if mask is None else mask
         for _ in range(rng.randint(1, 6)):
             mask[rng.randrange(ny), rng.randrange(nx)] = True
         i = rng.randrange(n)
@@ -923,7 +993,7 @@ def gen_real_case(rng, big=False):
             'x': xi, 'y': yi, 'flux': flux0, 'ids': None, 'local_bkg': local_bkg_col, 'grouping': grouping,
             'xy_bounds': xyb, 'psf': spec, 'infokind': {}, 'fseed': 0, 'aperture_radius': 4.0,
             'localbkg': localbkg, 'truth': {'x': xs, 'y': ys, 'flux': fl, 'bkg': bkg_level, 'half': half},
-            'klass': ['real']}
+            'klass': ['real'], 'junk': junk_mask is not None}
     if 'fix' in spec:
         nm = spec['fix'][0]
         if nm == 'x_0':
@@ -1045,6 +1115,10 @@ def run(ctx):
             ctx.stat('features', 'xy_bounds')
         if case['local_bkg'] is not None or case.get('localbkg'):
             ctx.stat('features', 'local background')
+        if case.get('localbkg'):
+            lbs = case['localbkg']
+            ctx.stat('localbkg_estimator', mode + ':' + (lbs.get('est') if isinstance(lbs, dict) else 'median-clip') +
+                     ('+mask' if case['mask'] is not None else '') + ('+finite junk under the mask' if case.get('junk') else ''))
         ctx.stat('psf', case['psf']['kind'] + ('+fix' if case['psf'].get('fix') else '') +
                  ('+free' if case['psf'].get('free') else ''))
         key = {k: v for k, v in case.items() if k not in ('truth', 'klass')}
@@ -1150,6 +1224,8 @@ def support_real(ctx, case, res):
     data = arr(case['data'])
     resid = phot.make_residual_image(data, psf_shape=(2 * t['half'] + 1, 2 * t['half'] + 1)) - t['bkg']
     good = np.isfinite(resid)
+    if case.get('junk'):
+        good &= ~arr(case['mask'], bool)
     worst_r = float(np.max(np.abs(resid[good]))) if good.any() else 0.0
     ctx.support('residual image ~ 0 (max |residual| <= 1e-3 * max flux)')
     if worst_r > 1e-3 * max(t['flux']):
@@ -1174,8 +1250,6 @@ def scaled_case(case, k):
 
 def iterative_support(ctx, quick):
     """flux scaling and IterativePSFPhotometry(maxiters=1) on rendered scenes (support)."""
-    from photutils.psf import IterativePSFPhotometry, PSFPhotometry, SourceGrouper
-    from photutils.detection import DAOStarFinder
     n = 6 if quick else 40
     for _ in range(n):
         case = gen_real_case(ctx.rng)
@@ -1196,40 +1270,177 @@ def iterative_support(ctx, quick):
                np.allclose(np.asarray(t2['y_fit'], float), np.asarray(t1['y_fit'], float), atol=2e-3, rtol=0))
         if not (same and okf and okp):
             ctx.violation('PSFPhotometry:scaling', f'scaling by {k} not equivariant', {'case': case, 'k': k})
-    # IterativePSFPhotometry(maxiters=1) == PSFPhotometry (same finder), exact table equality
-    for _ in range(4 if quick else 25):
-        case = gen_real_case(ctx.rng)
-        if case['flux'] is not None and ctx.rng.random() < 0.5:
-            case['flux'] = None
-        data = arr(case['data'])
-        data = np.where(np.isfinite(data), data, 0.0)
-        psf = make_psf(case['psf'])
-        grouper = SourceGrouper(11.0)
-        finder = DAOStarFinder(threshold=1.0, fwhm=case['psf']['fwhm'])
-        use_init = ctx.rng.random() < 0.5
-        kw = dict(grouper=grouper, aperture_radius=4.0)
-        it = IterativePSFPhotometry(psf, tuple(case['fit_shape']), finder, maxiters=1, **kw)
-        ph = PSFPhotometry(psf, tuple(case['fit_shape']), finder=finder, **kw)
-        c2 = dict(case)
-        c2['grouping'] = {'kind': 'id'}
-        init = init_table(c2) if use_init else None
-        with warnings.catch_warnings():
-            warnings.simplefilter('ignore')
-            a = it(data, init_params=init)
+    iterative_product(ctx, quick)
+    iterative_script_calls(ctx, quick)
+
+
+def _iter_kwargs(cfg):
+    from photutils.psf import SourceGrouper
+    xyb = cfg['xy_bounds']
+    return dict(grouper=None if cfg['grouper_t'] is None else SourceGrouper(cfg['grouper_t']),
+                aperture_radius=cfg['aperture_radius'], xy_bounds=tuple(xyb) if isinstance(xyb, list) else xyb,
+                localbkg_estimator=make_localbkg(cfg['localbkg']), fitter_maxiters=cfg['fitter_maxiters'])
+
+
+def run_iter_pair(cfg):
+    """IterativePSFPhotometry(maxiters=1, **kw) against PSFPhotometry(**kw) on one rendered scene, every
+    constructor argument forwarded identically.  Returns (messages, info)."""
+    from photutils.psf import IterativePSFPhotometry, PSFPhotometry
+    from photutils.detection import DAOStarFinder
+    case = cfg['case']
+    data = arr(case['data'])
+    data = np.where(np.isfinite(data), data, case['truth']['bkg'])
+    psf = make_psf(case['psf'])
+    finder = DAOStarFinder(threshold=case['truth']['bkg'] + 1.0, fwhm=case['psf']['fwhm'])
+    fs = tuple(cfg['fit_shape'])
+    it = IterativePSFPhotometry(psf, fs, finder, maxiters=1, **_iter_kwargs(cfg))
+    ph = PSFPhotometry(psf, fs, finder=finder, **_iter_kwargs(cfg))
+    c2 = dict(case)
+    c2['grouping'] = {'kind': 'id'}
+    c2['x'], c2['y'] = cfg['x'], cfg['y']
+    init = init_table(c2) if cfg['use_init'] else None
+    out = []
+    with warnings.catch_warnings():
+        warnings.simplefilter('ignore')
+        try:
             b = ph(data, init_params=init)
-        ctx.support('IterativePSFPhotometry(maxiters=1) table == PSFPhotometry table (+ iter_detected == 1)')
-        if (a is None) != (b is None):
-            ctx.violation('IterativePSFPhotometry:one-iteration', 'None mismatch', {'case': case})
-            continue
-        if a is None:
-            continue
-        okc = list(a.colnames) == [c for c in _with_iter(b.colnames)]
-        okv = all(np.array_equal(np.asarray(a[c]), np.asarray(b[c]), equal_nan=True) for c in b.colnames)
-        oki = bool(np.all(np.asarray(a['iter_detected']) == 1))
-        if not (okc and okv and oki):
+        except Exception as e:
+            return [], {'skipped': f'PSFPhotometry raised {type(e).__name__}'}
+        try:
+            a = it(data, init_params=init)
+        except Exception as e:
+            return [f'IterativePSFPhotometry raised {type(e).__name__}: {str(e)[:120]} where PSFPhotometry returned a table'], {}
+    if (a is None) != (b is None):
+        return ['one of the two returned None'], {}
+    if a is None:
+        return [], {'skipped': 'no sources'}
+    if list(a.colnames) != _with_iter(b.colnames):
+        out.append(f'columns differ: {list(a.colnames)} vs {list(b.colnames)}')
+    for c in b.colnames:
+        if c in a.colnames and not np.array_equal(np.asarray(a[c]), np.asarray(b[c]), equal_nan=True):
+            out.append(f'column {c}: iterative {np.asarray(a[c]).tolist()} != single {np.asarray(b[c]).tolist()}')
+    if 'iter_detected' in a.colnames and not bool(np.all(np.asarray(a['iter_detected']) == 1)):
+        out.append('iter_detected != 1')
+    info = {'flag32': int(np.count_nonzero(np.asarray(b['flags']) & 32)), 'rows': len(b)}
+    return out, info
+
+
+def iterative_product(ctx, quick):
+    """'IterativePSFPhotometry with one iteration equals PSFPhotometry' over the product of the constructor
+    arguments, with initial offsets large enough that xy_bounds bind (support; full tables compared exactly)."""
+    rng = ctx.rng
+    for _ in range(14 if quick else 90):
+        case = gen_real_case(rng, plain=True)
+        t = case['truth']
+        n = len(t['x'])
+        # start up to 0.9 px off the truth so that small bounds bind
+        x0 = [round((t['x'][i] + rng.choice([-1, 1]) * rng.choice([0.1, 0.3, 0.6, 0.8, 0.9])) * 8) / 8 for i in range(n)]
+        y0 = [round((t['y'][i] + rng.choice([-1, 1]) * rng.choice([0.1, 0.3, 0.6, 0.8, 0.9])) * 8) / 8 for i in range(n)]
+        if case['psf'].get('fix'):
+            x0, y0 = case['x'], case['y']
+        cfg = {'case': case, 'x': x0, 'y': y0,
+               'xy_bounds': rng.choice([None, 0.4, 0.25, 2.0, [0.4, None], [None, 0.3], [2.0, 2.0], [0.5, 0.25]]),
+               'fit_shape': rng.choice([case['fit_shape'], [5, 5], [7, 5], [9, 9]]),
+               'aperture_radius': rng.choice([3.0, 4.0, 5.0]),
+               'localbkg': rng.choice([None, None, {'inner': 14.0, 'outer': 20.0, 'est': 'median-clip'},
+                                       {'inner': 12.0, 'outer': 18.0, 'est': 'median'}]),
+               'grouper_t': rng.choice([None, 11.0, 11.0]),
+               'fitter_maxiters': rng.choice([100, 100, 30, 300]),
+               'use_init': rng.random() < 0.75}
+        if case['flux'] is not None and rng.random() < 0.5:
+            case['flux'] = None
+        msgs, info = run_iter_pair(cfg)
+        ctx.support('IterativePSFPhotometry(maxiters=1, **kw) table == PSFPhotometry(**kw) table over xy_bounds x fit_shape '
+                    'x aperture_radius x localbkg_estimator x grouper x fitter_maxiters x (finder | init_params)')
+        key = ('xy_bounds=' + json_key(cfg['xy_bounds']))
+        ctx.stat('iterative_vs_single', key)
+        ctx.stat('iterative_vs_single', 'init_params' if cfg['use_init'] else 'finder only')
+        if info.get('flag32'):
+            ctx.stat('iterative_vs_single', 'cases with a fit at the bounds (flag 32)')
+        b_ = cfg['xy_bounds']
+        b_ = [b_, b_] if not isinstance(b_, list) else b_
+        if cfg['use_init'] and ((b_[0] is not None and any(abs(a - c) > b_[0] for a, c in zip(x0, t['x']))) or
+                                (b_[1] is not None and any(abs(a - c) > b_[1] for a, c in zip(y0, t['y'])))):
+            ctx.stat('iterative_vs_single', 'cases where the bounds bind (start farther from the truth than the bound)')
+        if info.get('skipped'):
+            ctx.stat('iterative_vs_single', 'skipped: ' + info['skipped'])
+        if msgs:
             ctx.violation('IterativePSFPhotometry:one-iteration',
-                          'IterativePSFPhotometry(maxiters=1) differs from PSFPhotometry',
-                          {'case': case, 'use_init': use_init, 'columns': [list(a.colnames), list(b.colnames)]})
+                          'IterativePSFPhotometry(maxiters=1) differs from PSFPhotometry built with the same arguments: '
+                          + msgs[0][:300], {'iter_pair': cfg, 'cmd': 'bin/check C12 --replay <this file>'})
+
+
+def json_key(v):
+    return 'None' if v is None else str(v)
+
+
+def run_script_calls(case):
+    """Recording fitter under PSFPhotometry and under IterativePSFPhotometry(maxiters=1): what every fitter call
+    received (sub-model ids, initial values, x/y bounds, pixel lists, cutout, weights, maxiter) must be identical,
+    and the bounds must be the requested ones (initial value -/+ xy_bounds)."""
+    from photutils.psf import IterativePSFPhotometry, SourceGrouper
+    from photutils.detection import DAOStarFinder
+    res = run_impl(case)
+    if res['code'] != 0:
+        return [], 'skipped'
+    out = []
+    xyb = case['xy_bounds']
+    if xyb is not None and not isinstance(xyb, (list, tuple)):
+        xyb = [xyb, xyb]
+
+    def want(b, v):
+        return (None, None) if (xyb is None or b is None) else (v - b, v + b)
+    for who, calls in (('PSFPhotometry', res['calls']),):
+        for c in calls:
+            for (xv, yv, _), bx, by in zip(c['init'], c['bx'], c['by']):
+                if tuple(bx) != want(None if xyb is None else xyb[0], xv) or tuple(by) != want(None if xyb is None else xyb[1], yv):
+                    out.append(f'{who}: fitter received bounds x{tuple(bx)} y{tuple(by)} for initial ({xv}, {yv}), requested xy_bounds={xyb}')
+    data = arr(case['data'])
+    mask = arr(case['mask'], bool)
+    error = arr(case['error'])
+    fitter = RecFitter(case['mode'], case['fseed'], data.shape, case['infokind'])
+    grouper = None if case['grouping'].get('t') is None else SourceGrouper(case['grouping']['t'])
+    xyb_arg = tuple(case['xy_bounds']) if isinstance(case['xy_bounds'], list) else case['xy_bounds']
+    with warnings.catch_warnings():
+        warnings.simplefilter('ignore')
+        try:
+            it = IterativePSFPhotometry(make_psf(case['psf']), tuple(case['fit_shape']), DAOStarFinder(1e30, 2.0),
+                                        fitter=fitter, grouper=grouper, xy_bounds=xyb_arg, maxiters=1,
+                                        localbkg_estimator=make_localbkg(case.get('localbkg')),
+                                        aperture_radius=case.get('aperture_radius') or 3.0)
+            it(data.copy(), mask=None if mask is None else mask.copy(), error=None if error is None else error.copy(),
+               init_params=init_table(case))
+        except Exception as e:
+            if not fitter.calls:
+                return out + [f'IterativePSFPhotometry raised {type(e).__name__}: {str(e)[:100]} before fitting'], 'ran'
+    a, b = fitter.calls[:len(res['calls'])], res['calls']
+    if len(fitter.calls) < len(b):
+        out.append(f'IterativePSFPhotometry made {len(fitter.calls)} fitter calls, PSFPhotometry {len(b)}')
+    for k, (ca, cb) in enumerate(zip(a, b)):
+        for fld in ('ids', 'init', 'bx', 'by', 'fixed', 'xi', 'yi', 'weights', 'maxiter'):
+            if ca[fld] != cb[fld]:
+                out.append(f'fitter call {k}: {fld} differs: iterative {str(ca[fld])[:80]} vs single {str(cb[fld])[:80]}')
+        if not np.array_equal(np.array(ca['cut']), np.array(cb['cut']), equal_nan=True):
+            out.append(f'fitter call {k}: cutout values differ')
+    return out, 'ran'
+
+
+def iterative_script_calls(ctx, quick):
+    done = 0
+    for _ in range(60 if quick else 500):
+        case = gen_script_case(ctx.rng)
+        if case['xy_bounds'] is None and ctx.rng.random() < 0.6:
+            case['xy_bounds'] = ctx.rng.choice([0.5, 1.0, [1.5, None], [None, 0.75], [2.0, 1.0]])
+        msgs, st = run_script_calls(case)
+        if st != 'ran':
+            continue
+        done += 1
+        ctx.support('script mode: the fitter calls of IterativePSFPhotometry(maxiters=1) == those of PSFPhotometry '
+                    '(ids, initial values, bounds, pixels, cutout, weights, maxiter) and bounds == initial -/+ xy_bounds')
+        if msgs:
+            sig = 'IterativePSFPhotometry:fitter-inputs' if 'iterative' in msgs[0].lower() else '_make_psf_model:bounds'
+            ctx.violation(sig, msgs[0][:300], {'script_calls': case, 'cmd': 'bin/check C12 --replay <this file>'})
+    ctx.stat('iterative_vs_single', 'script-mode call-log comparisons', done)
 
 
 def _with_iter(cols):
@@ -1280,6 +1491,18 @@ def replay(obj):
         ok = got == want
         print('property holds on this input' if ok else 'property FAILS on this input')
         return 0 if ok else 1
+    if 'iter_pair' in r:
+        msgs, info = run_iter_pair(r['iter_pair'])
+        for m in msgs:
+            print('[IterativePSFPhotometry:one-iteration]', m[:400])
+        print('property holds on this input' if not msgs else 'property FAILS on this input')
+        return 0 if not msgs else 1
+    if 'script_calls' in r:
+        msgs, _ = run_script_calls(r['script_calls'])
+        for m in msgs:
+            print(m[:400])
+        print('property holds on this input' if not msgs else 'property FAILS on this input')
+        return 0 if not msgs else 1
     case = r['case']
     res = run_impl(case)
     print('outcome code:', res['code'], res['exc'] or '')
